@@ -1,4 +1,5 @@
 import Pds.Proofs.KernelTie.Quotient
+import Pds.Proofs.KernelTie.QfOps
 /-!
 # C13 — tie by translation: `QuotientFilter::calc_quotient_remainder`
 -/
@@ -7,5 +8,15 @@ open Pds Pds.KernelTie Pds.Generated.Kernels
 
 theorem calc_quotient_remainder_translated (q r fp : Nat) :
     qf_calc_quotient_remainder q r fp = Quotient.calcQR q r fp := qf_calc_quotient_remainder_eq q r fp
+
+/-- `QuotientFilter::scan` as translated — the walk back over shifted slots, the walk forward over runs and
+occupied buckets, the search within the run, with the fuel `len + 1` for every `while`/`loop` — is the model's
+`scan`, for every table size: the function on which `scan_correct`, `scan_insertion_point` and through them all
+of C13 rest -/
+theorem scan_translated {N : Nat} (t : Quotient.St N) (q : Fin N) (r : Nat) (onInsert : Bool) :
+    qf_scan (occL t) (contL t) (shiftL t) (remL t) q.val r onInsert =
+      match Quotient.scan t q r onInsert with
+      | none => Flow.panic
+      | some sr => Flow.ret ⟨sr.present, sr.position.val, sr.startOfRun.map (·.val)⟩ := qf_scan_eq t q r onInsert
 
 end Pds.Tie.C13
